@@ -173,6 +173,26 @@ def random_scripts(rng, n, maxlen=200):
         kh = btc.hash160(k)
         out += [btc.p2pkh(h), btc.p2sh(h), btc.p2pkh(h), b'\x00\x14' + h, btc.p2sh(h), btc.p2pk(k), btc.p2sh(kh), btc.p2pkh(kh), btc.p2pk(k),
                 b'\xa9' + btc.push(h, 1) + b'\x87', b'\x76\xa9' + btc.push(h, 1) + b'\x88\xac']
+    # dimensions the statements leave unbounded: the length of a no-op run inserted into a template (leading, inner, trailing) ...
+    nops = [0x61, 0xb0, 0xb1, 0xb2, 0xb3, 0xb9]
+    h = rng.randbytes(20)
+    k = b'\x03' + rng.randbytes(32)
+    parts = [[b'\x76\xa9', btc.push(h), b'\x88\xac'], [b'\xa9', btc.push(h), b'\x87'], [btc.push(k), b'\xac'], [b'\x6a', btc.push(b'nop run')],
+             [b'\x52', btc.push(k) * 3, b'\x53\xae']]
+    for L in (1, 100, 197, 198, 199, 200, 201, 202, 203, 255, 256, 257, 1000, 9990, 20000):
+        for pi, p in enumerate(parts):
+            run_ = bytes(rng.choice(nops) for _ in range(L)) if L < 300 else bytes([nops[(L + pi) % len(nops)]]) * L
+            pos = (L + pi) % (len(p) + 1)
+            out.append(b''.join(p[:pos]) + run_ + b''.join(p[pos:]))
+            if L in (198, 201, 256):
+                out.append(run_ + b''.join(p))
+                out.append(b''.join(p) + run_)
+    # ... and the length of the data push inside a template-shaped script, in every push form
+    for L in (0, 1, 19, 21, 32, 33, 61, 64, 65, 75, 76, 80, 255, 256, 520, 521, 9000, 70000):
+        d = rng.randbytes(L)
+        for form in ([None, 1, 2, 4] if L <= 75 else [1, 2, 4] if L <= 255 else [2, 4] if L <= 65535 else [4]):
+            pd = btc.push(d, form)
+            out += [b'\x76\xa9' + pd + b'\x88\xac', b'\xa9' + pd + b'\x87', pd + b'\xac'][(L + (form or 0)) % 3:][:2]
     # scripts beyond Bitcoin's 10 000-byte script size limit are still just scripts for a parser
     out += [b'\x51' * 10001, b'\x6a' + btc.push(rng.randbytes(10100)), b'\x51' + btc.push(rng.randbytes(10050)) + b'\x51\xae',
             b'\x75' * 10000, b'\x75' * 20000]
